@@ -252,6 +252,23 @@ func checkC17(cfg *core.Config) int {
 		default: // all files
 			addCase("all-files", scratch, abs(rels), false)
 		}
+		if i%4 == 1 {
+			// absolute paths that are valid but not in canonical form (built by concatenation)
+			var fs []string
+			for j, d := range dirs {
+				full := m.files[filepath.Join(d, "models.go")]
+				dir, base := filepath.Dir(full), filepath.Base(full)
+				switch j % 3 {
+				case 0:
+					fs = append(fs, dir+"//"+base)
+				case 1:
+					fs = append(fs, dir+"/./"+base)
+				default:
+					fs = append(fs, dir+"/../"+filepath.Base(dir)+"/"+base)
+				}
+			}
+			addCase("abs-not-canonical", scratch, fs, false)
+		}
 		// error cases
 		switch i % 5 {
 		case 0:
